@@ -950,7 +950,7 @@ impl Prop for C15 {
                     } else {
                         s.srv.stop_term();
                     }
-                    s.srv.start().map_err(|e| Failure::new("restart_failed", format!("{}: the server does not start again: {}", what, e)).with_sig(json!({"kind": "restart_failed"})))?;
+                    s.srv.start().map_err(|e| crate::common::srv::start_failure("restart_failed", format!("{}: the server does not start again: {}", what, e), &e))?;
                     rep.label("restart");
                     writes = true;
                 }
@@ -998,7 +998,7 @@ impl Prop for C15 {
         }
         // final restart: the collection after restart equals the accepted items
         s.srv.stop_term();
-        s.srv.start().map_err(|e| Failure::new("restart_failed", format!("after the sequence the server does not start again: {}", e)).with_sig(json!({"kind": "restart_failed"})))?;
+        s.srv.start().map_err(|e| crate::common::srv::start_failure("restart_failed", format!("after the sequence the server does not start again: {}", e), &e))?;
         let got = s.census()?;
         if got != model {
             return Err(Failure::new("census_differs_after_restart", format!("after restart the collection is {:?}, the accepted items give {:?}", got, model)).with_sig(json!({"kind": "refused_item_had_effect", "after_restart": true})));
